@@ -215,7 +215,10 @@ Input(c) ==
 EofRestart ==
   IF fid # 0 \/ fresh THEN /\ bol' = TRUE /\ eof' = FALSE /\ fresh' = TRUE /\ fid' = yyin
   ELSE UNCHANGED <<bol, eof, fresh, fid>>
-AtEnd == cur # 0 /\ buf = <<>> /\ eof /\ (fid # 0 => files[fid] = <<>>)
+\* (through stdio the end-of-file indicator is sticky: an exhausted source need not be seen to be asked again)
+AtEnd == /\ cur # 0 /\ buf = <<>>
+         /\ \/ eof /\ (fid # 0 => files[fid] = <<>>)
+            \/ opt.stdio /\ ReadFile # 0 /\ ReadFile <= Len(files) /\ files[ReadFile] = <<>>
 
 \* ... or its end-of-input value, only when no input remains at all (with a
 \* user yywrap only after yywrap said so: WrapRet1 returns to the action)
